@@ -196,7 +196,7 @@ class Application(object):
         for entry in routes:
             self.add(entry)
 
-        all_mws = _get_all_middlewares(self.routes)
+        all_mws = _get_all_middlewares(self.routes + [self._null_route])
         for mw in reversed(all_mws):
             self._dispatch_wsgi = _safe_wrap_wsgi('middleware', mw, self._dispatch_wsgi)
         return
